@@ -331,3 +331,53 @@ def sort_group(tier='quick'):
                     _fail(fails, 'groupby of %r' % (vals,), 'groups-partition-in-order', got, want)
                     return cases, fails
     return cases, fails
+
+
+def profiling_transparency(tier='quick'):
+    """C20: ProfilingDataset(ds) shows exactly what ds shows (len, indexable flag, two iterations, items, keys, every index
+    in [-n-2, n+2), present and absent keys) on the scenario pipelines of harness/scenarios.py, leaves ds untouched, and the
+    top wrapper counts one hit per fetch (failed fetches separately)."""
+    from lazy_dataset.core import ProfilingDataset
+    from harness import scenarios
+    from harness import oracle as O
+    fails, cases = [], 0
+    classes = ['ListDataset', 'DictDataset', 'MapDataset', 'SliceDataset', 'ConcatenateDataset', 'ZipDataset', 'ItemsDataset',
+               'BatchDataset', 'UnbatchDataset', 'FilterDataset', 'CatchExceptionDataset', 'KeyZipDataset', 'IntersperseDataset']
+    for cls in classes:
+        for n_sc, (desc, ds, ref, probe) in enumerate(scenarios.SCENARIOS[cls]()):
+            if tier == 'quick' and n_sc % 3:
+                continue
+            cases += 1
+            sc = 'ProfilingDataset(%s)' % desc
+            before = O.observe(ds, probe_keys=probe)
+            p = ProfilingDataset(ds)
+            got = O.observe(p, probe_keys=probe)
+            after = O.observe(ds, probe_keys=probe)
+            for k in before:
+                if got.get(k) != before[k]:
+                    _fail(fails, sc, k, got.get(k), before[k])
+                if after.get(k) != before[k]:
+                    _fail(fails, sc, 'wrapped-pipeline-untouched:' + k, after.get(k), before[k])
+            # truthful counting at the top wrapper
+            p = ProfilingDataset(ds)
+            seq, end = before['iter0']
+            try:
+                for _ in p:
+                    pass
+            except Exception:  # noqa
+                pass
+            failed = 0 if end == ('end',) else 1
+            if p.hit_count != [len(seq) + failed, failed]:
+                _fail(fails, sc, 'hit_count-after-one-iteration', list(p.hit_count), [len(seq) + failed, failed])
+            if before['indexable'] == ('v', True):
+                p = ProfilingDataset(ds)
+                tot = bad = 0
+                for i, o in before['getitem'].items():
+                    try:
+                        p[i]
+                    except Exception:  # noqa
+                        bad += 1
+                    tot += 1
+                if p.hit_count != [tot, bad]:
+                    _fail(fails, sc, 'hit_count-after-indexing', list(p.hit_count), [tot, bad])
+    return cases, fails
